@@ -89,7 +89,9 @@ func init() {
 				return
 			}
 			fl := []*ast.File{f}
-			emitS := func(name, val string) { out = append(out, fmt.Sprintf("def main_%s : String := %s", name, leanString(val))) }
+			emitS := func(name, val string) {
+				out = append(out, fmt.Sprintf("def main_%s : String := %s", name, leanString(val)))
+			}
 			// syncConfig: local constants, the composite literal, the default-if-zero statements
 			fd := findFunc(fl, "syncConfig")
 			if fd == nil {
@@ -199,7 +201,9 @@ func init() {
 				return
 			}
 			fl := []*ast.File{f}
-			emitS := func(name, val string) { out = append(out, fmt.Sprintf("def main_%s : String := %s", name, leanString(val))) }
+			emitS := func(name, val string) {
+				out = append(out, fmt.Sprintf("def main_%s : String := %s", name, leanString(val)))
+			}
 			// scionRefClockNumClient
 			ev := &evaluator{decls: map[string]ast.Expr{}, iotas: map[string]int{}, memo: map[string]constant.Value{}, busy: map[string]bool{}}
 			for _, d := range f.Decls {
